@@ -1,0 +1,31 @@
+//go:build verif
+
+// Contracts for package conversions, read as text by the verification-condition generator in /verif.
+// This file contains no code; with the build tag off it is not part of the build at all.
+//
+// big.Int values are described through the abstraction of /verif/contracts/trusted/mathbig.ct.
+
+package conversions
+
+//@ func UintToInt
+//@   ensures (result1 != nil) == (value > 0x7fffffffffffffff)
+//@   ensures result1 == nil ==> result0 >= 0 && uint64(result0) == value
+
+//@ func IntToUint
+//@   ensures (result1 != nil) == (value < 0)
+//@   ensures result1 == nil ==> result0 == uint64(value)
+
+// The result denotes exactly value.
+//@ func UintToBigInt
+//@   modifies bigNeg, bigIs64, bigLo, bigHi, alloc
+//@   ensures result != nil && !bigNeg[uint64(result)] && bigIs64[uint64(result)] && bigLo[uint64(result)] == value
+
+//@ func BigIntToInt
+//@   requires value != nil && big.WF(value)
+//@   ensures result1 == nil ==> bigIs64[uint64(value)] && ite(bigNeg[uint64(value)], bigLo[uint64(value)] <= 0x8000000000000000 && result0 == int64(0 - bigLo[uint64(value)]), bigLo[uint64(value)] < 0x8000000000000000 && result0 == int64(bigLo[uint64(value)]))
+//@   ensures (result1 != nil) == !(bigIs64[uint64(value)] && ite(bigNeg[uint64(value)], bigLo[uint64(value)] <= 0x8000000000000000, bigLo[uint64(value)] < 0x8000000000000000))
+
+//@ func BigIntToUint
+//@   requires value != nil && big.WF(value)
+//@   ensures result1 == nil ==> bigIs64[uint64(value)] && !bigNeg[uint64(value)] && result0 == bigLo[uint64(value)]
+//@   ensures (result1 != nil) == !(bigIs64[uint64(value)] && !bigNeg[uint64(value)])
